@@ -57,6 +57,15 @@ def triple_specs(w, tier):
                         for r3 in ('exact', 'prev', 'overlap_prev'):
                             yield (f, (s2, 3, r2, '+2'), (s3, d3, r3, 'same'))
                             yield (f, (s2, 3, r2, '+1002'), (s3, d3, r3, '+1000'))
+    # segments added in a non-ascending order: a high first segment, a second one below it (or far above it), a third one placed
+    # relative to the FIRST (overlapping its tail / head / inside it: refused; adjacent to it: fine)
+    for f in [((1 << 14) - 2, 4, 'exact', '+2'), (64, 1, 'exact', '+1000'), (1 << 40, 4, 'exact', 'same')]:
+        for s2 in ('before', 'zero', 'far', 'adjacent'):
+            for l2 in ('same', '+2'):
+                for s3 in ('first_same', 'first_overlap_last', 'first_overlap_head', 'first_adjacent', 'first_inside'):
+                    for d3 in (3, 0):
+                        for l3 in ('same', '+2'):
+                            yield (f, (s2, 3, 'exact', l2), (s3, d3, 'exact', l3))
     # a data-less segment (reserve) in the middle / at the start, then segments with data
     for f in [(0, 1, 'exact', 'same'), (0, 0, 'exact', '+2')]:
         for s2 in ('adjacent', 'far'):
@@ -72,6 +81,7 @@ def materialize(specs, w):
     calls = []
     pool_len = 0
     prev = None  # (start, length, ds, dl)
+    first = None
     dls = data_lists(w)
     for (s, d, r, ln) in specs:
         words = dls[d]
@@ -99,7 +109,11 @@ def materialize(specs, w):
             raise ValueError(r)
         length = {'same': dl, '+2': dl + 2, '+998': dl + 998, '+1000': dl + 1000, '+1002': dl + 1002, 'zero': 0, '-2': dl - 2,
                   '+1': dl + 1, 'huge': 1 << 40}[ln]
-        if isinstance(s, str):
+        if isinstance(s, str) and s.startswith('first_'):
+            fs, fl = first[0], first[1]   # placed relative to the FIRST segment (segments need not come in ascending order)
+            start = {'first_same': fs, 'first_overlap_last': fs + fl - 2, 'first_overlap_head': max(fs - length + 2, 0), 'first_adjacent': fs + fl,
+                     'first_inside': fs + 2}[s]
+        elif isinstance(s, str):
             ps, pl = prev[0], prev[1]
             start = {'adjacent': ps + pl, 'overlap_last': ps + pl - 2, 'same': ps, 'before': ps - length if ps - length >= 0 else ps + pl,
                      'before_overlap': max(ps - length + 2, 0), 'far': 1 << 40, 'zero': 0}[s]
@@ -107,6 +121,7 @@ def materialize(specs, w):
             start = s
         calls.append(('seg', start, length, ds, dl))
         prev = (start, length, ds, dl)
+        first = first or prev
     return calls
 
 
